@@ -232,9 +232,14 @@ Proof.
   - intros H. exists x. split; [exact H|apply Nat.eqb_refl].
 Qed.
 (** the computed set is closed under every operation (one evaluation per operation) *)
+(** the closure as a literal, so that the per-operation checks below (and an independent re-check by coqchk, which has no VM)
+    do not recompute the breadth-first search *)
+Definition reach_lit : list nat := [0; 1; 3; 4; 8; 16; 40; 72; 5; 9; 17; 41; 73; 7; 11; 19; 43; 75; 12; 20; 44; 76; 24; 56; 88; 104; 13; 21; 45; 77; 25; 57; 89; 105; 15; 23; 47; 79; 27; 59; 91; 107; 28; 60; 92; 108; 120; 29; 61; 93; 109; 121; 31; 63; 95; 111; 123; 124; 125; 127]%nat.
+Lemma reach_lit_eq : reach_masks = reach_lit.
+Proof. vm_compute. reflexivity. Qed.
 Lemma reach_step_b : forall k, forallb (fun m => memn (mask (post (to_op k) (state_of_mask m))) reach_masks) reach_masks = true.
 Proof.
-  intros k; destruct k as [r|g|m|t|t]; [destruct r|destruct g|destruct m|destruct t|destruct t]; vm_compute; reflexivity.
+  intros k; rewrite reach_lit_eq; destruct k as [r|g|m|t|t]; [destruct r|destruct g|destruct m|destruct t|destruct t]; vm_compute; reflexivity.
 Qed.
 Local Opaque reach_masks.
 Lemma reach_step : forall m k, In m reach_masks -> In (mask (post (to_op k) (state_of_mask m))) reach_masks.
